@@ -53,9 +53,11 @@ PROPS["C03"] = dict(
 
 PROPS["C04"] = dict(
     level="proof",
-    verus=["c04_partition", "c04_precedence"],
+    verus=["c04_partition", "c04_precedence", "c04_ids"],
     labels=["C04."] + MASK,
-    kani=[],
+    kani=[KaniSet("src/filters/network.rs", "c04_ids.rs", [
+        Harness("c04_id_twin", "C04.id.twin", "B", "twin of C04.id.all_components: strings <= 2 ASCII chars, domain lists <= 2 hashes, symbolic 32-bit mask (unwind 4, unwinding assertions on)"),
+    ])],
     trusted=["NetworkFilterList::new/add_filter hold exactly the given rules (C01 units)",
              "R6: tagged.check(..).or_else(|| filters.check(..)) means 'a tagged hit, else a normal hit'",
              "rule ids: get_id/get_id_without_badfilter uninterpreted here"],
